@@ -61,7 +61,7 @@ def check(spec, case, viol):
         img = np.stack([img + 1000000 * c for c in range(ch)], -1)
     try:
         pipe = R.build([spec])
-        random.seed(case['seed'])
+        R.seed(case['seed'])
         out = pipe(image=img.copy())['image']
     except Exception as e:  # noqa
         viol.append({'site': 'C07:%s:raises' % name, 'spec': spec, 'case': case,
@@ -164,7 +164,7 @@ def run(seed=0, tier='quick', hints=None, broken=False):
     viol, evals, seen = [], 0, set()
     for _ in range(n):
         shape = S.random_shape(rng)
-        case = {'shape': list(shape), 'seed': rng.randint(0, 10 ** 6), 'channels': rng.choice([None, None, 1, 3])}
+        case = {'shape': list(shape), 'seed': R.pick_seed(rng), 'channels': rng.choice([None, None, 1, 3])}
         for c in configs(rng, shape):
             check(c, case, viol)
             evals += 1
